@@ -370,14 +370,23 @@ impl<'de, R: Reader<'de>> Deserializer<R> {
             let json = self.parser.read.as_u8_slice();
 
             // get n to check trailing characters in later
-            let n = if cfg.utf8_lossy && self.parser.read.next_invalid_utf8() != usize::MAX {
+            let (n, len) = if cfg.utf8_lossy && self.parser.read.next_invalid_utf8() != usize::MAX {
                 // repr the invalid utf8, not need to care about the invalid UTF8 char in non-string
                 // parts, it will cause errors when parsing.
-                val.parse_with_padding(String::from_utf8_lossy(json).as_bytes(), cfg)?
+                let repr = String::from_utf8_lossy(json);
+                (val.parse_with_padding(repr.as_bytes(), cfg)?, repr.len())
             } else {
-                val.parse_with_padding(json, cfg)?
+                (val.parse_with_padding(json, cfg)?, json.len())
             };
             self.parser.read.eat(n);
+            // the value was parsed from a padded copy: it must end inside the JSON (not in the
+            // padding chars) and must not contain the invalid UTF-8 found when creating the reader
+            if n > len {
+                return Err(self.parser.error(EofWhileParsing));
+            }
+            if !cfg.utf8_lossy {
+                self.parser.check_invalid_utf8(false)?;
+            }
         } else {
             let shared = unsafe {
                 if self.shared.is_none() {
